@@ -205,9 +205,14 @@ static const LDef LINES[] = {
   {"genA+1e-9deg", 20, -30, 35 + 1e-9, 0, 0},
   {"meridian10@-25", -25, 10, 0, 2, +1},
   {"genA-rev", 20, -30, -145, 3, -1},
+  // thorough tier only
+  {"nearEquator", 0, 20, 89.9, 0, 0},          // crosses the equator at 0.1 deg
+  {"nearPole", 60, -120, 1e-5, 0, 0},          // passes a few metres from the pole
+  {"genE", 75, 33, -70, 0, 0},
 };
-static const int NL = sizeof(LINES) / sizeof(LINES[0]);
-static int expected_c(const LDef& a, const LDef& b) { return (a.group && a.group == b.group) ? a.dir * b.dir : 0; }
+static const int NLALL = sizeof(LINES) / sizeof(LINES[0]);
+static int NL = 12;
+static int expected_c(const LDef& a, const LDef& b) { return &a == &b ? 1 : ((a.group && a.group == b.group) ? a.dir * b.dir : 0); }
 
 struct PDef { const char* name; double lat, lon; };
 static const PDef ENDS[] = {
@@ -217,13 +222,26 @@ static const PDef ENDS[] = {
 };
 static const int NE = sizeof(ENDS) / sizeof(ENDS[0]);
 
+// ------------------------------------------------------------------ coincidence lines of constructed-coincident pairs
+struct CoLine {
+  int c = 0; ld b = 0; std::vector<ld> pers;            // y = c x + b + k per for any listed period (0 = no period)
+  bool on(double x, double y, double tol) const {
+    if (c == 0) return false;
+    ld off = (ld)y - c * (ld)x - b;
+    for (ld per : pers) { ld r = per > 0 ? off - per * roundl(off / per) : off; if (fabsl(r) <= tol) return true; }
+    return false;
+  }
+};
+// signed meridian distance from the equator (Geodesic::Inverse, verified by C02)
+static ld merid(const Geodesic& g, double lat, double lon) { double s; g.Inverse(0, lon, lat, lon, s); return lat < 0 ? -(ld)s : (ld)s; }
+
 // ------------------------------------------------------------------ the judge
 struct Judge {
   Ctx& ctx; const Ell& E; const Geodesic& g; double sc;
   double RES;                  // intersection residual tolerance (before the multi-circuit factor)
   std::string where;
   mc::Fields F;
-  void failk(const char* kind, const std::string& msg) { F[0].second = kind; ctx.fail(where + " " + kind, msg, F); }
+  void failk(const char* kind, const std::string& msg) { F[0].second = kind; ctx.count(std::string("failclass.") + kind + "." + E.name); ctx.fail(where + " " + kind, msg, F); }
   double restol(double x, double y) const { return RES * std::max(1.0, std::max(std::fabs(x), std::fabs(y)) / (2e7 * sc)); }
   // (i) soundness: independent evaluation of both lines; returns residual, sets crossing sine
   double residual(const GeodesicLine& ix, const GeodesicLine& iy, double x, double y, double& sinth) const {
@@ -238,12 +256,20 @@ struct Judge {
     if (!(r <= tol)) { failk("not-an-intersection", std::string(api) + " returned (" + fx(x) + "," + fx(y) + ") but X(x) and Y(y) are " + fmt(r) + " m apart (tol " + fmt(tol) + ")"); return false; }
     return true;
   }
+  // documented meaning of c: +-1 iff the geodesics lie on top of one another AT the intersection.  Lines constructed
+  // coincident (ec != 0) coincide exactly along y = ec x + b (+ k per): there c must be ec.  Away from that line a
+  // non-closed geodesic can still cross itself transversally on an ellipsoid: there c = 0 is right.  Lines constructed
+  // distinct have c = 0 everywhere (also the 1e-9 deg pair).
+  int expect_c(const struct CoLine& L, double x, double y) const;
   double postol(double sinth, double x, double y) const { return 2 * restol(x, y) / std::max(sinth, 1e-300) + restol(x, y); }
 };
+
+int Judge::expect_c(const CoLine& L, double x, double y) const { return L.on(x, y, 1e-3 * sc + 4 * restol(x, y)) ? L.c : 0; }
 
 int main(int argc, char** argv) {
   Ctx ctx(argc, argv);
   const bool T = ctx.thorough();
+  NL = T ? NLALL : 12;
   const double aW = Constants::WGS84_a(), fW = Constants::WGS84_f();
   std::vector<Ell> ells = {{"sphere", aW, 0, false, 15e-9}, {"WGS84", aW, fW, false, 15e-9}};
   if (T) {
@@ -286,7 +312,7 @@ int main(int argc, char** argv) {
   // ================================================================ Closest + All over line pairs
   ctx.sub("ix-closest-all");
   {
-    ScanStat st; uint64_t sphere_lattice_pts = 0, sphere_lattice_found = 0, all_unmatched_returned = 0, calls = 0;
+    ScanStat st; uint64_t sphere_lattice_pts = 0, sphere_lattice_found = 0, all_unmatched_returned = 0, all_illconditioned_returned = 0, calls = 0;
     for (const Ell& E : ells) {
       const double sc = E.a / aW;
       const double hline = 2.5e5 * sc; const int Kline = 400;    // |x| <= 1e8: covers |p0| + maxdist + margin
@@ -307,6 +333,14 @@ int main(int argc, char** argv) {
         J.F = {{"kind", ""}, {"ellipsoid", E.name}, {"pair", std::string(A.name) + "/" + B.name}, {"coincident", fmti(ec)}};
         SphPair S; if (E.f == 0) S = sph_pair(sph_line(A.lat, A.lon, A.azi), sph_line(B.lat, B.lon, B.azi), (Q)E.a);
         if (E.f == 0 && S.coincident != (ec != 0)) { fprintf(stderr, "oracle self-check: coincidence of %s/%s\n", A.name, B.name); return 2; }
+        CoLine CL; CL.c = ec;
+        if (ec != 0) {
+          double qm; g->Inverse(0, 0, 90, 0, qm);
+          if (E.f == 0) { CL.b = (ld)S.b; CL.pers = {2 * LPI * E.a}; if (S.c != ec) { fprintf(stderr, "oracle self-check: orientation of %s/%s\n", A.name, B.name); return 2; } }
+          else if (A.group == 1) { CL.b = B.dir * (ld)E.a * (A.lon - B.lon) * LPI / 180; CL.pers = {2 * LPI * E.a}; }          // equator (closed)
+          else if (A.group == 2) { CL.b = B.dir * (merid(*g, A.lat, A.lon) - merid(*g, B.lat, B.lon)); CL.pers = {4 * (ld)qm}; }  // meridian 10E (closed)
+          else { CL.b = 0; CL.pers = {0}; }                                                               // same start point, not closed
+        }
         for (auto p0s : P0) {
           const double p0x = p0s.first * sc, p0y = p0s.second * sc;
           const Intersect::Point p0(p0x, p0y);
@@ -339,7 +373,9 @@ int main(int argc, char** argv) {
               J.failk("overloads-differ", "Closest(lat,lon,azi,...) / Closest(lines) / without c give different results");
             double sinth;
             if (J.check_point("closest", ix, iy, p.first, p.second, sinth)) {
-              if (c1 != ec) J.failk("coincidence-indicator", "c = " + fmti(c1) + ", constructed " + fmti(ec));
+              const int lc = J.expect_c(CL, p.first, p.second);
+              if (c1 != lc) J.failk("coincidence-indicator", "c = " + fmti(c1) + " at (" + fx(p.first) + "," + fx(p.second) + "), expected " + fmti(lc) + " (lines constructed with c = " + fmti(ec) + ")");
+              if (E.f == 0 && ec == 0) sinth = (double)S.sinth;                        // exact crossing angle on the sphere
               const double dlib = std::fabs(p.first - p0x) + std::fabs(p.second - p0y);
               if (ec != 0 && E.f == 0) {
                 // coincident great circles: the L1 distance to the nearest coincidence line is the minimum
@@ -386,7 +422,9 @@ int main(int argc, char** argv) {
               if (!(d <= md * (1 + 4e-16) + 1e-9)) J.failk("all-beyond-maxdist", "point " + fmti(k) + " at L1 distance " + fx(d) + " > maxdist");
               if (d < prev) J.failk("all-not-sorted", "point " + fmti(k) + " at distance " + fx(d) + " after a point at " + fx(prev));
               prev = d;
-              if (k < cv.size() && cv[k] != ec) J.failk("coincidence-indicator", "c[" + fmti(k) + "] = " + fmti(cv[k]) + ", constructed " + fmti(ec));
+              { const int lc = J.expect_c(CL, v[k].first, v[k].second);
+                if (k < cv.size() && cv[k] != lc) J.failk("coincidence-indicator", "c[" + fmti(k) + "] = " + fmti(cv[k]) + ", expected " + fmti(lc) + " (lines constructed with c = " + fmti(ec) + ")"); }
+              if (E.f == 0 && ec == 0) sth[k] = (double)S.sinth;
               for (size_t m = 0; m < k; ++m)
                 if (l1(v[k].first, v[k].second, v[m].first, v[m].second) <= 1.0) J.failk("all-duplicate", "points " + fmti(m) + " and " + fmti(k) + " are the same intersection");
             }
@@ -401,6 +439,7 @@ int main(int argc, char** argv) {
             if (!have) continue;
             std::vector<char> used(roots.size(), 0);
             for (size_t k = 0; k < v.size(); ++k) {
+              if (!complete && sth[k] < 1e-6) { ++all_illconditioned_returned; continue; }     // nearly tangent crossing: position not comparable
               const double pt = 1e-3 + J.postol(sth[k], v[k].first, v[k].second);
               int best = -1; ld bd = 1e30L;
               for (size_t m = 0; m < roots.size(); ++m) { ld d = l1(roots[m].x, roots[m].y, v[k].first, v[k].second); if (d < bd) { bd = d; best = (int)m; } }
@@ -429,6 +468,7 @@ int main(int argc, char** argv) {
     ctx.count("ix.scan.clipped", st.clipped);
     ctx.count("ix.scan.selfcheck_sphere_lattice_points", sphere_lattice_pts); ctx.count("ix.scan.selfcheck_sphere_lattice_found_by_scan", sphere_lattice_found);
     ctx.count("ix.all.returned_not_found_by_scan", all_unmatched_returned);
+    ctx.count("ix.all.returned_nearly_tangent_not_matched", all_illconditioned_returned);
   }
 
   // ================================================================ Next
@@ -461,20 +501,23 @@ int main(int argc, char** argv) {
         if (!mc::same_bits(p.first, p2.first) || !mc::same_bits(p.second, p2.second) || c1 != c2) J.failk("overloads-differ", "Next(lat,lon,aziX,aziY) and Next(lines) differ");
         double sinth;
         if (!J.check_point("next", ix, iy, p.first, p.second, sinth)) continue;
-        if (c1 != ec) J.failk("coincidence-indicator", "c = " + fmti(c1) + ", constructed " + fmti(ec));
+        CoLine CL; CL.c = ec; CL.b = 0;
+        if (ec != 0) { double qm; g.Inverse(0, 0, 90, 0, qm); if (E.f == 0) CL.pers = {2 * LPI * E.a}; else CL.pers = {0, 2 * LPI * E.a, 4 * (ld)qm}; }
+        const int lc = J.expect_c(CL, p.first, p.second);
+        if (c1 != lc) J.failk("coincidence-indicator", "c = " + fmti(c1) + ", expected " + fmti(lc) + " (lines constructed with c = " + fmti(ec) + ")");
         const double dlib = std::fabs(p.first) + std::fabs(p.second);
         if (!(dlib > 1.0 * sc)) { J.failk("next-is-origin", "Next returned the starting intersection itself: (" + fx(p.first) + "," + fx(p.second) + ")"); continue; }
         if (ec != 0) {
           // coincident: the library reports the conjugate point (s, c s); only soundness is documented.  On the sphere
           // the conjugate distance is pi R: check that as the natural reading of "next".
-          if (!(std::fabs(p.second - ec * p.first) <= 4 * J.restol(p.first, p.second))) J.failk("next-coincident-off-line", "coincident lines: returned (" + fx(p.first) + "," + fx(p.second) + ") is not on y = c x");
-          if (E.f == 0 && !(std::fabs(std::fabs(p.first) - (double)(LPI * E.a)) <= 1e-6)) J.failk("next-coincident-not-conjugate", "sphere, coincident lines: |x| = " + fx(std::fabs(p.first)) + " is not the conjugate distance pi R");
+          // (the limit of the lattice (i pi R, j pi R), i+j even, for vanishing crossing angle: L1 distance 2 pi R)
+          if (E.f == 0 && !(std::fabs(dlib - (double)(2 * LPI * E.a)) <= 1e-6)) J.failk("next-coincident-distance", "sphere, coincident lines: L1 distance " + fx(dlib) + " is not 2 pi R (conjugate point)");
           continue;
         }
         if (E.f == 0) {
           SphPair S = sph_pair(sph_line(s0.lat, s0.lon, ax), sph_line(s0.lat, s0.lon, ay), (Q)E.a);
           std::vector<Root> roots = sph_lattice(S, 0, 0, dlib + 1e6);
-          const double pt = J.postol(sinth, p.first, p.second);
+          const double pt = J.postol((double)S.sinth, p.first, p.second);
           ld dmin = 1e30L, dmatch = 1e30L;
           for (auto& r : roots) { ld d = l1(r.x, r.y, 0, 0); if (d > 1.0 && d < dmin) dmin = d; dmatch = std::min(dmatch, l1(r.x, r.y, p.first, p.second)); }
           ctx.worstf("ix.next.sphere_position_err_over_tol", (double)dmatch / pt, [&] { return J.where; });
@@ -538,7 +581,8 @@ int main(int argc, char** argv) {
           if (fam(a1) == fam(a2) && fam(b1) == fam(b2) && fam(a1) == fam(b1) && fam(a1) != 'G') {
             double da = fam(a1) == 'E' ? a2.lon - a1.lon : a2.lat - a1.lat, db = fam(a1) == 'E' ? b2.lon - b1.lon : b2.lat - b1.lat;
             ec = (da > 0) == (db > 0) ? 1 : -1;
-          }
+          } else if (segs[i].p == segs[j].p && segs[i].q == segs[j].q) ec = 1;          // the same segment
+          else if (segs[i].p == segs[j].q && segs[i].q == segs[j].p) ec = -1;           // the same segment reversed
           J.F = {{"kind", ""}, {"ellipsoid", E.name}, {"coincident", fmti(ec)}};
           int sm = -99, sm2 = -99, c1 = -9, c2 = -9;
           Intersect::Point p = in->Segment(sl[i], sl[j], sm, &c1);
@@ -547,7 +591,17 @@ int main(int argc, char** argv) {
           if (!mc::same_bits(p.first, p2.first) || !mc::same_bits(p.second, p2.second) || sm != sm2 || c1 != c2) J.failk("overloads-differ", "Segment(8 coordinates) and Segment(lines) differ");
           double sinth;
           if (!J.check_point("segment", il[i], il[j], p.first, p.second, sinth)) continue;
-          if (c1 != ec) J.failk("coincidence-indicator", "c = " + fmti(c1) + ", constructed " + fmti(ec));
+          CoLine CL; CL.c = ec;
+          if (ec != 0) {
+            double qm; g->Inverse(0, 0, 90, 0, qm);
+            if (segs[i].p == segs[j].p && segs[i].q == segs[j].q) { CL.b = 0; CL.pers = {0}; }
+            else if (segs[i].p == segs[j].q && segs[i].q == segs[j].p) { CL.b = sl[i].Distance(); CL.pers = {0}; }
+            else if (fam(a1) == 'E') { int dB = b2.lon > b1.lon ? 1 : -1; CL.b = dB * (ld)E.a * (a1.lon - b1.lon) * LPI / 180; CL.pers = {2 * LPI * E.a}; }
+            else { int dB = b2.lat > b1.lat ? 1 : -1; CL.b = dB * (merid(*g, a1.lat, a1.lon) - merid(*g, b1.lat, b1.lon)); CL.pers = {4 * (ld)qm}; }
+            if (E.f == 0) CL.pers.push_back(2 * LPI * E.a);
+          }
+          { const int lc = J.expect_c(CL, p.first, p.second);
+            if (c1 != lc) J.failk("coincidence-indicator", "c = " + fmti(c1) + ", expected " + fmti(lc) + " (segments constructed with c = " + fmti(ec) + ")"); }
           const double sx = sl[i].Distance(), sy = sl[j].Distance();
           // documented definition of segmode from the returned point
           int kx = p.first < 0 ? -1 : (p.first <= sx ? 0 : 1), ky = p.second < 0 ? -1 : (p.second <= sy ? 0 : 1);
@@ -560,6 +614,7 @@ int main(int argc, char** argv) {
             if (S.coincident != (ec != 0)) { fprintf(stderr, "oracle self-check: segment coincidence %s\n", J.where.c_str()); return 2; }
             if (std::fabs((double)slen[i] - sx) > 1e-6 || std::fabs((double)slen[j] - sy) > 1e-6) J.failk("segment-length", "sphere: InverseLine lengths " + fx(sx) + "," + fx(sy) + " differ from the great-circle arcs");
             if (ec == 0) {
+              const double pt = J.postol((double)S.sinth, p.first, p.second);
               std::vector<Root> roots = sph_lattice(S, mx, my, std::max(dlib, (sx + sy) / 2) + 1e6);
               // classify: a lattice point definitely inside / definitely outside the rectangle, or borderline
               const Root* inside = nullptr; bool anyborder = false;
